@@ -183,7 +183,7 @@ class Runner:
             ann.append(cs)
         return ann
 
-    def run_stream(self, name, hists, shm, keys_oracle=False, nontrivial=None):
+    def run_stream(self, name, hists, shm, keys_oracle=False, nontrivial=None, jprefix="J"):
         """returns dict(cases, hist_of, out_i, out_m, diffs, crashed, jbad)"""
         cases, hist_of = [], []
         for hi, h in enumerate(hists):
@@ -199,7 +199,7 @@ class Runner:
         # judge: specification run over the implementation's answers (raw answers re-read: canon dropped lowmem,
         # which the judge needs, so run the harness output through again un-canonicalised)
         raw = seen[:len(out_i)]
-        jl = [f"J {raw[k] if k < len(raw) else 'none'} ; {cases[k]}" for k in range(len(cases))]
+        jl = [f"{jprefix} {raw[k] if k < len(raw) else 'none'} ; {cases[k]}" for k in range(len(cases))]
         rc, jout, jerr = self.c.run_lines(self.model, jl)
         jbad = [(k, jout[k] if k < len(jout) else "no-judge-output") for k in range(len(cases))
                 if not (k < len(jout) and jout[k] == "1")]
@@ -207,13 +207,13 @@ class Runner:
             self.c.broke(f"judge crashed on stream {name}", jerr)
         return dict(cases=cases, hist_of=hist_of, out_i=out_i, out_m=out_m, diffs=diffs, crashed=crashed, jbad=jbad, raw=raw)
 
-    def judge_history(self, h, shm, keys_oracle=False):
+    def judge_history(self, h, shm, keys_oracle=False, jprefix="J"):
         """(first failing line index | None, verdict, impl outputs, model outputs) for one history"""
         cases = self.annotate(list(h), shm, keys_oracle)
         rc, raw, err = self.c.run_lines(self.hbin, cases, [str(shm)])
         if rc != 0:
             return len(raw), "crash", raw, [], err
-        jl = [f"J {raw[k] if k < len(raw) else 'none'} ; {cases[k]}" for k in range(len(cases))]
+        jl = [f"{jprefix} {raw[k] if k < len(raw) else 'none'} ; {cases[k]}" for k in range(len(cases))]
         rc2, jout, jerr = self.c.run_lines(self.model, jl)
         rc3, mout, merr = self.c.run_lines(self.model, cases)
         for k in range(len(cases)):
